@@ -10,7 +10,7 @@ Line protocol of the C10 model driver.
     fn <fid> <exe> <lnk> <n> <v1..vn> <r1..rn>      push a leaf: values, then per slot `-` or the sibling position
     comp <kind> <exe> <lnk> <nkids> <n> <v1..vn> <r1..rn> <l1..ln>   pops <nkids>; links `-` or `j.s`
     top                                             the node on the stack becomes the (parentless) top node
-    run | submit <snap> | complete | set <k> <v> | fetch | connect <k> <v> | disconnect <k> | rerun | dump
+    run | submit <snap> | complete | set <k> <v> | fetch | connect <k> <v> | disconnect <k> | rerun | setkid <j> <k> <v> | dump
 
 Values: dot-separated tokens, `-` = NOT_DATA.  exe: n | is | iv | xs | xv.  kind: macro | for | wf.
 Every op answers `res <token>`, the dump of the whole graph, `end`.
@@ -205,6 +205,10 @@ def step (st : DSt) (ws : List String) : DSt × List String :=
     match k.toNat?, parseVal v with
     | some k, some v => onSess st true fun s => edit s (.setIn k v)
     | _, _ => (st, ["bad-op"])
+  | ["setkid", j, k, v] =>
+    match j.toNat?, k.toNat?, parseVal v with
+    | some j, some k, some v => onSess st true fun s => edit s (.setKid j k v)
+    | _, _, _ => (st, ["bad-op"])
   | ["fetch"] => onSess st true fun s => edit s .fetch
   | ["connect", k, v] =>
     match k.toNat?, parseVal v with
